@@ -32,6 +32,7 @@ type C09Plan struct {
 	StartZero bool      `json:"start_zero"`
 	Ops       []int     `json:"ops"`
 	Planted   []Planted `json:"planted"` // what makes Reconfigure(invalid) invalid (applied to B)
+	Probe     int       `json:"probe"`   // which failing-preflight probe observes debug mode (method / PNA / headers)
 }
 
 type c09 struct{}
@@ -79,7 +80,7 @@ func genObservableCfg(r *R) Cfg {
 }
 
 func (c09) Gen(r *R, tier string) any {
-	p := &C09Plan{A: genObservableCfg(r), B: genObservableCfg(r), StartZero: r.P(0.5)}
+	p := &C09Plan{A: genObservableCfg(r), B: genObservableCfg(r), StartZero: r.P(0.5), Probe: r.Intn(12)}
 	n := r.Range(1, 8)
 	if tier == "thorough" && r.P(0.3) {
 		n = r.Range(8, 14)
@@ -150,7 +151,7 @@ func (c09) Exec(plan any, c *Ctx) *Violation {
 			c.hit("passthrough_observed")
 			return nil // debug of a passthrough middleware is observed at the next configuration
 		}
-		q, _ := debugProbe(cur)
+		q, _ := debugProbeK(cur, p.Probe)
 		r1 := srv.do(q)
 		var got bool
 		switch {
@@ -392,6 +393,11 @@ func (c09) Shrink(plan any) []any {
 	if len(p.Planted) > 1 {
 		q := *p
 		q.Planted = p.Planted[:1]
+		out = append(out, &q)
+	}
+	if p.Probe != 0 {
+		q := *p
+		q.Probe = 0
 		out = append(out, &q)
 	}
 	return out
